@@ -1,3 +1,408 @@
-import QtyModel.Tables
+import QtyModel.Lemmas.Conv
+/-
+  C05 — Derived results use the natural or the best-fitting unit.
+
+  Property theorems only.  Quantifiers: every arithmetic with `Laws`, every
+  result table `T` (any number of units), every magnitude.
+-/
+set_option linter.unusedSectionVars false
 namespace Qty.C05
+open Qty
+
+variable {A U V W : Type} [DecidableEq U] [DecidableEq V] [DecidableEq W] (R : Arith A)
+
+/-- the eligible units: all units if the reference unit has no SI prefix, else the SI-prefixed ones -/
+theorem mem_eligible (T : QT A U) (u : U) :
+    u ∈ eligible T ↔ u ∈ T.units ∧ (T.hasPrefix T.ref = false ∨ T.hasPrefix u = true) := by
+  simp [eligible, List.mem_filter]
+
+/-- the reference unit is always eligible, so `_fit`'s `unwrap` cannot fail on a table that lists it -/
+theorem ref_eligible (T : QT A U) (h : T.ref ∈ T.units) : T.ref ∈ eligible T := by
+  rw [mem_eligible]
+  refine ⟨h, ?_⟩
+  cases T.hasPrefix T.ref <;> simp
+
+theorem getLast?_filter_pairwise {α : Type} (rel : α → α → Prop) (p : α → Bool) (l : List α)
+    (hl : l.Pairwise rel) (w : α) (hw : (l.filter p).getLast? = some w) :
+    w ∈ l ∧ p w = true ∧ ∀ v ∈ l, p v = true → v = w ∨ rel v w := by
+  have hmem : w ∈ l.filter p := List.mem_of_getLast? hw
+  rw [List.mem_filter] at hmem
+  refine ⟨hmem.1, hmem.2, ?_⟩
+  intro v hv hpv
+  obtain ⟨ys, hys⟩ := List.getLast?_eq_some_iff.mp hw
+  have hpw : (l.filter p).Pairwise rel := hl.sublist List.filter_sublist
+  rw [hys, List.pairwise_append] at hpw
+  have hvm : v ∈ l.filter p := List.mem_filter.mpr ⟨hv, hpv⟩
+  rw [hys, List.mem_append] at hvm
+  rcases hvm with hvm | hvm
+  · exact Or.inr (hpw.2.2 v hvm w (by simp))
+  · exact Or.inl (by simpa using hvm)
+
+/-- structure of a successful `_fit` -/
+theorem fit_cases (T : QT A U) (hI : T.fitIdentity = none) (x : A) (r : Q A U)
+    (h : fit R T x = .ok r) :
+    ∃ first rest, eligible T = first :: rest ∧
+      r.unit = ((rest.filter (fun u => R.gt (T.scale u) (T.scale first) && R.le (T.scale u) x)).getLast?.getD first) ∧
+      R.div x (T.scale r.unit) = .ok r.amount := by
+  unfold fit at h
+  rw [hI] at h
+  simp only at h
+  split at h
+  · cases h
+  · next first rest heq =>
+    refine ⟨first, rest, heq, ?_⟩
+    generalize (rest.filter (fun u => R.gt (T.scale u) (T.scale first) && R.le (T.scale u) x)).getLast?.getD first = w at h ⊢
+    cases hd : R.div x (T.scale w) with
+    | error e => simp only [hd, bind, Except.bind] at h; cases h
+    | ok v =>
+      simp only [hd, bind, Except.bind, pure, Except.pure] at h
+      cases h
+      exact ⟨rfl, hd⟩
+
+/- ORIGINAL STATEMENT (false as written):
+
+    theorem fit_never_unwrap_none (T : QT A U) (h : T.ref ∈ T.units) (x : A) :
+        fit R T x ≠ .error .unwrapNone
+
+  `R` is an arbitrary arithmetic here, and `_fit` ends with `R.div x (scale u)`, whose panic it
+  propagates.  Nothing prevents an abstract `R.div` from itself answering
+  `.error .unwrapNone` (see `fit_unwrap_none_of_div` below for a kernel-checked witness), so
+  the statement needs the hypothesis that the DIVISION does not report that panic kind.  It is
+  only needed for the magnitude `x` and the scales of the eligible units; both back-ends
+  satisfy it for all operands (`fit_never_unwrap_none_dec`, `fit_never_unwrap_none_f64`). -/
+
+/-- the reference unit is always eligible, so `_fit`'s own `unwrap` cannot fail on a table that
+lists it: the only way `_fit` reports `unwrap-none` is that the amount type's division does -/
+theorem fit_never_unwrap_none (T : QT A U) (h : T.ref ∈ T.units) (x : A)
+    (hdiv : ∀ u ∈ eligible T, R.div x (T.scale u) ≠ .error .unwrapNone) :
+    fit R T x ≠ .error .unwrapNone := by
+  intro hh
+  unfold fit at hh
+  split at hh
+  · cases hh
+  · split at hh
+    · next heq => have := ref_eligible T h; rw [heq] at this; cases this
+    · next first rest heq =>
+      have hwm : (rest.filter (fun u => R.gt (T.scale u) (T.scale first) && R.le (T.scale u) x)).getLast?.getD first
+          ∈ eligible T := by
+        rw [heq]
+        cases hl : (rest.filter (fun u => R.gt (T.scale u) (T.scale first) && R.le (T.scale u) x)).getLast? with
+        | none => simp
+        | some v =>
+          have := List.mem_of_getLast? hl
+          rw [List.mem_filter] at this
+          simp [this.1]
+      dsimp only at hh
+      generalize (rest.filter (fun u => R.gt (T.scale u) (T.scale first) && R.le (T.scale u) x)).getLast?.getD first = w at hh hwm
+      have := hdiv w hwm
+      cases hd : R.div x (T.scale w) with
+      | error e =>
+        simp only [hd, bind, Except.bind] at hh
+        cases hh; exact this hd
+      | ok v =>
+        simp only [hd, bind, Except.bind, pure, Except.pure] at hh
+        cases hh
+
+/-- witness that the extra hypothesis of `fit_never_unwrap_none` cannot be dropped -/
+theorem fit_unwrap_none_of_div :
+    ∃ (R : Arith Unit) (T : QT Unit Unit) (x : Unit),
+      T.ref ∈ T.units ∧ fit R T x = .error .unwrapNone :=
+  ⟨{ zero := (), one := (), add := fun _ _ => .ok (), sub := fun _ _ => .ok (),
+     mul := fun _ _ => .ok (), div := fun _ _ => .error .unwrapNone, neg := fun _ => .ok (),
+     beq := fun _ _ => true, pcmp := fun _ _ => some .eq, val := fun _ => some 0,
+     ofLit := fun _ => some (), same := fun _ _ => true },
+   { units := [()], scale := fun _ => (), hasPrefix := fun _ => false, ref := () }, (),
+   by simp, by decide⟩
+
+theorem dec_div_ne_unwrapNone (a b : Dec) : Dec.arith.div a b ≠ .error .unwrapNone := by
+  show Dec.div a b ≠ _
+  unfold Dec.div
+  dsimp only
+  split_ifs <;> simp
+
+theorem f64_div_ne_unwrapNone (a b : F64) : F64.arith.div a b ≠ .error .unwrapNone := by
+  intro h; cases h
+
+/-- the original statement holds for both back-ends -/
+theorem fit_never_unwrap_none_dec (T : QT Dec U) (h : T.ref ∈ T.units) (x : Dec) :
+    fit Dec.arith T x ≠ .error .unwrapNone :=
+  fit_never_unwrap_none Dec.arith T h x (fun u _ => dec_div_ne_unwrapNone x (T.scale u))
+
+theorem fit_never_unwrap_none_f64 (T : QT F64 U) (h : T.ref ∈ T.units) (x : F64) :
+    fit F64.arith T x ≠ .error .unwrapNone :=
+  fit_never_unwrap_none F64.arith T h x (fun u _ => f64_div_ne_unwrapNone x (T.scale u))
+
+/-- on a table that lists its reference unit (and does not override `_fit`), `_fit` is one
+division of the magnitude by the scale of some eligible unit -/
+theorem fit_eq_div (T : QT A U) (hI : T.fitIdentity = none) (h : T.ref ∈ T.units) (x : A) :
+    ∃ w ∈ eligible T, fit R T x = (R.div x (T.scale w)).map (fun a => (⟨a, w⟩ : Q A U)) := by
+  unfold fit
+  rw [hI]
+  dsimp only
+  split
+  · next heq => have := ref_eligible T h; rw [heq] at this; cases this
+  · next first rest heq =>
+    have hwm : (rest.filter (fun u => R.gt (T.scale u) (T.scale first) && R.le (T.scale u) x)).getLast?.getD first
+        ∈ eligible T := by
+      rw [heq]
+      cases hl : (rest.filter (fun u => R.gt (T.scale u) (T.scale first) && R.le (T.scale u) x)).getLast? with
+      | none => simp
+      | some v =>
+        have := List.mem_of_getLast? hl
+        rw [List.mem_filter] at this
+        simp [this.1]
+    refine ⟨_, hwm, ?_⟩
+    generalize (rest.filter (fun u => R.gt (T.scale u) (T.scale first) && R.le (T.scale u) x)).getLast?.getD first = w
+    cases R.div x (T.scale w) <;> rfl
+
+/-- the fitted value always carries an eligible unit (hence a unit of the result quantity)
+and its amount is the magnitude divided by that unit's scale -/
+theorem fit_unit_mem (T : QT A U) (hI : T.fitIdentity = none) (x : A) (r : Q A U)
+    (h : fit R T x = .ok r) : r.unit ∈ eligible T ∧ R.div x (T.scale r.unit) = .ok r.amount := by
+  obtain ⟨first, rest, heq, hu, hd⟩ := fit_cases R T hI x r h
+  refine ⟨?_, hd⟩
+  rw [heq, hu]
+  cases hl : (rest.filter (fun u => R.gt (T.scale u) (T.scale first) && R.le (T.scale u) x)).getLast? with
+  | none => simp
+  | some v =>
+    have := List.mem_of_getLast? hl
+    rw [List.mem_filter] at this
+    simp [this.1]
+
+theorem gt_iff_of_val {M : ErrModel} (L : Laws R M) (c d : A) (x y : Rat)
+    (hc : R.val c = some x) (hd : R.val d = some y) :
+    (R.gt c d = true ↔ y < x) := by
+  unfold Arith.gt
+  rw [L.pcmp_val c d x y hc hd]
+  unfold ratCmp
+  rcases lt_trichotomy x y with h | h | h
+  · simp [h, not_lt.mpr (le_of_lt h)]
+  · subst h; simp
+  · simp [h, not_lt.mpr (le_of_lt h), ne_of_gt h]
+
+theorem le_iff_of_val {M : ErrModel} (L : Laws R M) (c d : A) (x y : Rat)
+    (hc : R.val c = some x) (hd : R.val d = some y) :
+    (R.le c d = true ↔ x ≤ y) := by
+  unfold Arith.le
+  rw [L.pcmp_val c d x y hc hd]
+  unfold ratCmp
+  rcases lt_trichotomy x y with h | h | h
+  · simp [h, le_of_lt h]
+  · subst h; simp
+  · simp [not_lt.mpr (le_of_lt h), ne_of_gt h, not_le.mpr h]
+
+/-- Characterisation of the unit `_fit` chooses.  `sc u` is the exact value of the scale of `u`,
+`xv` the exact value of the magnitude; the eligible units are listed in non-decreasing scale
+order (C09).  Either the chosen unit `w` is a largest eligible unit whose scale does not
+exceed the magnitude, or no eligible unit's scale is `≤` the magnitude and `w` is a smallest one. -/
+theorem fit_spec {M : ErrModel} (L : Laws R M) (T : QT A U) (hI : T.fitIdentity = none)
+    (sc : U → Rat) (hsc : ∀ u ∈ eligible T, R.val (T.scale u) = some (sc u))
+    (hsorted : (eligible T).Pairwise (fun u v => sc u ≤ sc v))
+    (x : A) (xv : Rat) (hx : R.val x = some xv) (r : Q A U) (h : fit R T x = .ok r) :
+    r.unit ∈ eligible T ∧
+    ((sc r.unit ≤ xv ∧ ∀ v ∈ eligible T, sc v ≤ xv → sc v ≤ sc r.unit) ∨
+     ((∀ v ∈ eligible T, xv < sc v) ∧ ∀ v ∈ eligible T, sc r.unit ≤ sc v)) := by
+  refine ⟨(fit_unit_mem R T hI x r h).1, ?_⟩
+  obtain ⟨first, rest, heq, hu, -⟩ := fit_cases R T hI x r h
+  rw [heq] at hsc hsorted ⊢
+  rw [List.pairwise_cons] at hsorted
+  obtain ⟨hfirst, hrest⟩ := hsorted
+  have hp : ∀ v ∈ rest, ((R.gt (T.scale v) (T.scale first) && R.le (T.scale v) x) = true ↔
+      sc first < sc v ∧ sc v ≤ xv) := by
+    intro v hv
+    rw [Bool.and_eq_true,
+      gt_iff_of_val R L _ _ _ _ (hsc v (List.mem_cons_of_mem _ hv)) (hsc first List.mem_cons_self),
+      le_iff_of_val R L _ _ _ _ (hsc v (List.mem_cons_of_mem _ hv)) hx]
+  rw [hu]
+  cases hl : (rest.filter (fun u => R.gt (T.scale u) (T.scale first) && R.le (T.scale u) x)).getLast? with
+  | none =>
+    simp only [Option.getD_none]
+    have hnone : ∀ v ∈ rest, ¬ (sc first < sc v ∧ sc v ≤ xv) := by
+      intro v hv hc
+      have hvm : v ∈ rest.filter (fun u => R.gt (T.scale u) (T.scale first) && R.le (T.scale u) x) :=
+        List.mem_filter.mpr ⟨hv, (hp v hv).mpr hc⟩
+      rw [List.getLast?_eq_none_iff] at hl
+      rw [hl] at hvm
+      cases hvm
+    have hmin : ∀ v ∈ first :: rest, sc first ≤ sc v := by
+      intro v hv
+      rcases List.mem_cons.mp hv with rfl | hv
+      · exact le_refl _
+      · exact hfirst v hv
+    by_cases hfx : sc first ≤ xv
+    · left
+      refine ⟨hfx, ?_⟩
+      intro v hv hvx
+      rcases List.mem_cons.mp hv with rfl | hv
+      · exact le_refl _
+      · by_contra hc
+        exact hnone v hv ⟨not_le.mp hc, hvx⟩
+    · right
+      refine ⟨?_, hmin⟩
+      intro v hv
+      exact lt_of_lt_of_le (not_le.mp hfx) (hmin v hv)
+  | some w =>
+    simp only [Option.getD_some]
+    obtain ⟨hwm, hpw, hall⟩ := getLast?_filter_pairwise (fun u v => sc u ≤ sc v) _ rest hrest w hl
+    have hw := (hp w hwm).mp hpw
+    left
+    refine ⟨hw.2, ?_⟩
+    intro v hv hvx
+    rcases List.mem_cons.mp hv with rfl | hv
+    · exact le_of_lt hw.1
+    · by_cases hc : sc first < sc v
+      · rcases hall v hv ((hp v hv).mpr ⟨hc, hvx⟩) with rfl | h'
+        · exact le_refl _
+        · exact h'
+      · exact le_trans (not_lt.mp hc) (le_of_lt hw.1)
+
+/-- natural unit: if some unit of the result quantity has a scale equal (in the amount type) to the
+computed product of the operand scales, the result uses the FIRST such unit in iteration order
+and its amount is exactly the amount type's product of the operand amounts -/
+theorem dmul_natural (TL : QT A U) (TR : QT A V) (TO : QT A W) (l : Q A U) (r : Q A V)
+    (s : A) (hs : R.mul (TL.scale l.unit) (TR.scale r.unit) = .ok s)
+    (w : W) (hw : TO.units.find? (fun u => R.beq (TO.scale u) s) = some w) :
+    dmul R TL TR TO l r = (R.mul l.amount r.amount).map (fun a => ⟨a, w⟩) := by
+  unfold dmul
+  simp only [hs, bind, Except.bind, unitFromScale, hw, pure, Except.pure]
+  cases R.mul l.amount r.amount <;> rfl
+
+theorem ddiv_natural (TL : QT A U) (TR : QT A V) (TO : QT A W) (l : Q A U) (r : Q A V)
+    (s : A) (hs : R.div (TL.scale l.unit) (TR.scale r.unit) = .ok s)
+    (w : W) (hw : TO.units.find? (fun u => R.beq (TO.scale u) s) = some w) :
+    ddiv R TL TR TO l r = (R.div l.amount r.amount).map (fun a => ⟨a, w⟩) := by
+  unfold ddiv
+  simp only [hs, bind, Except.bind, unitFromScale, hw, pure, Except.pure]
+  cases R.div l.amount r.amount <;> rfl
+
+/-- otherwise the result is the fitted reference-unit magnitude `(a·b)·scale` -/
+theorem dmul_fitted (TL : QT A U) (TR : QT A V) (TO : QT A W) (l : Q A U) (r : Q A V)
+    (s : A) (hs : R.mul (TL.scale l.unit) (TR.scale r.unit) = .ok s)
+    (hw : TO.units.find? (fun u => R.beq (TO.scale u) s) = none) :
+    dmul R TL TR TO l r = (do fit R TO (← R.mul (← R.mul l.amount r.amount) s)) := by
+  unfold dmul
+  simp only [hs, bind, Except.bind, unitFromScale, hw]
+
+theorem ddiv_fitted (TL : QT A U) (TR : QT A V) (TO : QT A W) (l : Q A U) (r : Q A V)
+    (s : A) (hs : R.div (TL.scale l.unit) (TR.scale r.unit) = .ok s)
+    (hw : TO.units.find? (fun u => R.beq (TO.scale u) s) = none) :
+    ddiv R TL TR TO l r = (do fit R TO (← R.mul (← R.div l.amount r.amount) s)) := by
+  unfold ddiv
+  simp only [hs, bind, Except.bind, unitFromScale, hw]
+
+/-- common tail of the two generated operator bodies -/
+theorem tail_unit_mem (TO : QT A W) (hI : TO.fitIdentity = none) (s : A) (pa : Res A)
+    (res : Q A W)
+    (h : (match unitFromScale R TO s with
+          | some u => (do return ⟨← pa, u⟩ : Res (Q A W))
+          | none => (do fit R TO (← R.mul (← pa) s))) = .ok res) :
+    res.unit ∈ TO.units := by
+  cases hf : unitFromScale R TO s with
+  | some w =>
+    rw [hf] at h
+    have hwm : w ∈ TO.units := List.mem_of_find?_eq_some hf
+    cases hp : pa with
+    | error e => simp only [hp, bind, Except.bind] at h; cases h
+    | ok p =>
+      simp only [hp, bind, Except.bind, pure, Except.pure] at h
+      cases h; exact hwm
+  | none =>
+    rw [hf] at h
+    cases hp : pa with
+    | error e => simp only [hp, bind, Except.bind] at h; cases h
+    | ok p =>
+      simp only [hp, bind, Except.bind] at h
+      cases hx : R.mul p s with
+      | error e => simp only [hx] at h; cases h
+      | ok x =>
+        simp only [hx] at h
+        exact ((mem_eligible TO _).mp (fit_unit_mem R TO hI x res h).1).1
+
+/-- the result of a derived product always carries a unit of the result quantity -/
+theorem dmul_unit_mem (TL : QT A U) (TR : QT A V) (TO : QT A W) (hI : TO.fitIdentity = none)
+    (l : Q A U) (r : Q A V) (res : Q A W) (h : dmul R TL TR TO l r = .ok res) :
+    res.unit ∈ TO.units := by
+  unfold dmul at h
+  cases hs : R.mul (TL.scale l.unit) (TR.scale r.unit) with
+  | error e => simp only [hs, bind, Except.bind] at h; cases h
+  | ok s =>
+    simp only [hs, bind, Except.bind] at h
+    exact tail_unit_mem R TO hI s (R.mul l.amount r.amount) res h
+
+theorem ddiv_unit_mem (TL : QT A U) (TR : QT A V) (TO : QT A W) (hI : TO.fitIdentity = none)
+    (l : Q A U) (r : Q A V) (res : Q A W) (h : ddiv R TL TR TO l r = .ok res) :
+    res.unit ∈ TO.units := by
+  unfold ddiv at h
+  cases hs : R.div (TL.scale l.unit) (TR.scale r.unit) with
+  | error e => simp only [hs, bind, Except.bind] at h; cases h
+  | ok s =>
+    simp only [hs, bind, Except.bind] at h
+    exact tail_unit_mem R TO hI s (R.div l.amount r.amount) res h
+
+/-- `unit_from_scale` of an amount with exact value one finds the reference unit when it is the
+first unit of scale one -/
+theorem unitFromScale_one {M : ErrModel} (L : Laws R M) (TO : QT A W)
+    (sc : W → Rat) (hsc : ∀ u ∈ TO.units, R.val (TO.scale u) = some (sc u))
+    (pre post : List W) (hunits : TO.units = pre ++ TO.ref :: post)
+    (href : sc TO.ref = 1) (hpre : ∀ u ∈ pre, sc u ≠ 1)
+    (s : A) (hs : R.val s = some 1) : unitFromScale R TO s = some TO.ref := by
+  unfold unitFromScale
+  have hb : ∀ u ∈ TO.units, R.beq (TO.scale u) s = decide (sc u = 1) :=
+    fun u hu => L.beq_val _ _ _ _ (hsc u hu) hs
+  have hrefm : TO.ref ∈ TO.units := by rw [hunits]; simp
+  have hnone : pre.find? (fun u => R.beq (TO.scale u) s) = none := by
+    rw [List.find?_eq_none]
+    intro u hu
+    have hum : u ∈ TO.units := by rw [hunits]; simp [hu]
+    rw [hb u hum]
+    simp [hpre u hu]
+  have hrefb : R.beq (TO.scale TO.ref) s = true := by
+    rw [hb _ hrefm]; simp [href]
+  have : (pre ++ TO.ref :: post).find? (fun u => R.beq (TO.scale u) s) = some TO.ref := by
+    rw [List.find?_append, hnone, List.find?_cons]
+    simp [hrefb]
+  rw [← hunits] at this
+  exact this
+
+/-- operands given in reference units produce a result in the reference unit, provided the
+reference unit of the result comes first among its units of scale one (C09) -/
+theorem dmul_ref_units {M : ErrModel} (L : Laws R M) (TL : QT A U) (TR : QT A V) (TO : QT A W)
+    (l : Q A U) (r : Q A V) (hl : l.unit = TL.ref) (hr : r.unit = TR.ref)
+    (hsl : R.val (TL.scale TL.ref) = some 1) (hsr : R.val (TR.scale TR.ref) = some 1)
+    (sc : W → Rat) (hsc : ∀ u ∈ TO.units, R.val (TO.scale u) = some (sc u))
+    (pre post : List W) (hunits : TO.units = pre ++ TO.ref :: post)
+    (href : sc TO.ref = 1) (hpre : ∀ u ∈ pre, sc u ≠ 1)
+    (res : Q A W) (h : dmul R TL TR TO l r = .ok res) : res.unit = TO.ref := by
+  obtain ⟨s, hs, hsv⟩ := L.one_mul_val _ _ 1 hsl hsr
+  rw [← hl, ← hr] at hs
+  have hf := unitFromScale_one R L TO sc hsc pre post hunits href hpre s hsv
+  rw [dmul_natural R TL TR TO l r s hs TO.ref hf] at h
+  cases hp : R.mul l.amount r.amount with
+  | error e => rw [hp] at h; cases h
+  | ok p => rw [hp] at h; cases h; rfl
+
+theorem ddiv_ref_units {M : ErrModel} (L : Laws R M) (TL : QT A U) (TR : QT A V) (TO : QT A W)
+    (l : Q A U) (r : Q A V) (hl : l.unit = TL.ref) (hr : r.unit = TR.ref)
+    (hsl : R.val (TL.scale TL.ref) = some 1) (hsr : R.val (TR.scale TR.ref) = some 1)
+    (sc : W → Rat) (hsc : ∀ u ∈ TO.units, R.val (TO.scale u) = some (sc u))
+    (pre post : List W) (hunits : TO.units = pre ++ TO.ref :: post)
+    (href : sc TO.ref = 1) (hpre : ∀ u ∈ pre, sc u ≠ 1)
+    (res : Q A W) (h : ddiv R TL TR TO l r = .ok res) : res.unit = TO.ref := by
+  obtain ⟨s, hs, hsv⟩ := L.div_self_val _ _ 1 hsl hsr one_ne_zero
+  rw [← hl, ← hr] at hs
+  have hf := unitFromScale_one R L TO sc hsc pre post hunits href hpre s hsv
+  rw [ddiv_natural R TL TR TO l r s hs TO.ref hf] at h
+  cases hp : R.div l.amount r.amount with
+  | error e => rw [hp] at h; cases h
+  | ok p => rw [hp] at h; cases h; rfl
+
+/-- non-vacuity: a three-unit table (scales 0.001, 1, 1000; no SI prefix on the reference unit)
+where fitting 2500 chooses the unit with scale 1000 and fitting 0.0002 falls back to the smallest -/
+example :
+    let T : QT Dec Nat := { units := [0, 1, 2],
+                            scale := fun u => if u = 0 then ⟨1, 3⟩ else if u = 1 then ⟨10, 1⟩ else ⟨1000, 0⟩,
+                            hasPrefix := fun _ => false, ref := 1 }
+    fit Dec.arith T ⟨2500, 0⟩ = .ok ⟨⟨25, 1⟩, 2⟩ ∧ fit Dec.arith T ⟨2, 4⟩ = .ok ⟨⟨2, 1⟩, 0⟩ := by
+  decide +kernel
+
 end Qty.C05
